@@ -10,7 +10,7 @@ import (
 )
 
 func checkC11(c *Ctx) {
-	c.rule = "MC: for Base/BaseResp/AppEx, every permutation of the known fields x interleaved unknown fields of every type (incl. ids colliding with known ids) x nil/empty/one-entry maps reads back to the written value and consumes the whole input (MC_FastStructs). TRACE: random values (strings of every length class and content, any i32, maps 0..8, nil vs empty map, nil receiver) through BLength/FastWrite/FastWriteNocopy(nil)/FastMarshal (st_write) and FastRead/FastUnmarshal (st_read); all field permutations with 0..2 unknown fields from the typed value generator and repeated fields (st_read on hand-built inputs); TLC computes EncStruct/ReadStruct. BIG COLLECTIONS (Go monitor; the expectation is computed in Go from the data that was encoded, because TLC's map comparison is quadratic): Base / BaseResp with Extra maps of 255..131073 entries: BLength = bytes written = bytes consumed, every entry read back. After every decode the caller adds to / deletes from every decoded map and the same bytes are decoded again into a fresh struct."
+	c.rule = "MC: for Base/BaseResp/AppEx, every permutation of the known fields x interleaved unknown fields of every type (incl. ids colliding with known ids) x nil/empty/one-entry maps reads back to the written value and consumes the whole input (MC_FastStructs). TRACE: random values (strings of every length class and content, any i32, maps 0..8, nil vs empty map, nil receiver) through BLength/FastWrite/FastWriteNocopy(nil)/FastMarshal (st_write) and FastRead/FastUnmarshal (st_read); all field permutations with 0..2 unknown fields from the typed value generator and repeated fields (st_read on hand-built inputs); TLC computes EncStruct/ReadStruct. BIG COLLECTIONS (Go monitor; the expectation is computed in Go from the data that was encoded, because TLC's map comparison is quadratic): Base / BaseResp with Extra maps of 255..131073 entries: BLength = bytes written = bytes consumed, every entry read back. After every decode the caller adds to / deletes from every decoded map and the same bytes are decoded again into a fresh struct. Every known field id x every other wire type x every position."
 	c.MC("MC_FastStructs.tla", "MC_FastStructs.cfg", 8)
 	c.TraceCheck(famStructC11, structCases(c))
 	bigStructMonitor(c)
